@@ -7,7 +7,6 @@ package main
 
 import (
 	"fmt"
-	"go/types"
 	"sort"
 	"strings"
 
@@ -42,8 +41,21 @@ type QFact struct {
 	lineIdx int
 	guard   Term
 	varSym  string
+	varSort Sort // sort of the bound variable ("" = Int)
+	ref     bool // the bound variable is a typed reference ("forall c *T"): never instantiated at index arithmetic
 	body    Term // range ==> body, with varSym free
 	unfolds []unfoldT
+}
+
+// SkolemFn is the skolem function of an existential that occurs positively
+// under a universally quantified assumption: "forall v :: H ==> exists i :: B"
+// is assumed in the form "forall v :: H ==> B[i := f(v)]", so that f(sk) is a
+// named candidate witness when a goal about sk needs one.
+type SkolemFn struct {
+	lineIdx int
+	name    string
+	dom     Sort
+	ref     bool
 }
 
 // Witness is a skolem constant of an assumed existential.
@@ -84,11 +96,11 @@ func (e *Env) quantPartsU(q *EQuant) (string, Term, Term, []unfoldT, error) {
 func (e *Env) quantParts0(q *EQuant) (string, Term, Term, error) {
 	e.vc.nfresh++
 	v := quote(fmt.Sprintf("q:%s!%d", q.Var, e.vc.nfresh))
-	vtyp, vsort, terr := e.quantVarType(q)
-	if terr != nil {
-		return "", Term{}, Term{}, terr
+	qt, err := e.quantVarType(q)
+	if err != nil {
+		return "", Term{}, Term{}, err
 	}
-	env := e.with(map[string]TV{q.Var: {Term{v, vsort}, vtyp}})
+	env := e.with(map[string]TV{q.Var: {Term{v, q.varSort()}, qt}})
 	env.bound = true
 	var unf []unfoldT
 	env.unfolds = &unf
@@ -110,21 +122,6 @@ func (e *Env) quantParts0(q *EQuant) (string, Term, Term, error) {
 		rng = and(le(lo.T, Term{v, SInt}), lt(Term{v, SInt}, hi.T))
 	}
 	return v, rng, body, nil
-}
-
-// quantVarType resolves the declared type of a quantifier's bound variable
-// ("forall e *Entry :: ...", "forall k string :: ..."); int when undeclared.
-func (e *Env) quantVarType(q *EQuant) (types.Type, Sort, error) {
-	if q.VType == "" || q.VType == "int" {
-		return tInt, SInt, nil
-	}
-	nerr := len(e.vc.errs)
-	t, srt := e.vc.lemmaParamType(e, q.VType)
-	if len(e.vc.errs) > nerr || t == nil {
-		e.vc.errs = e.vc.errs[:nerr]
-		return nil, SInt, fmt.Errorf("quantifier: unknown type %s", q.VType)
-	}
-	return t, srt, nil
 }
 
 func subst(t Term, sym string, by Term) Term {
@@ -154,11 +151,14 @@ func (vc *VC) assumeClause(guard Term, env *Env, cl *Clause) {
 			continue
 		}
 		if q.Forall {
-			vc.qfacts = append(vc.qfacts, &QFact{lineIdx: len(vc.lines), guard: and(guard, h), varSym: v, body: implies(rng, body), unfolds: unf})
+			vc.qfacts = append(vc.qfacts, &QFact{lineIdx: len(vc.lines), guard: and(guard, h), varSym: v, varSort: q.varSort(), ref: q.isRef(), body: implies(rng, body), unfolds: unf})
+			vc.skolemiseInner(guard, h, env, q, v, rng)
 			continue
 		}
-		_, wsort, _ := env.quantVarType(q)
-		w := vc.fresh("ex:"+q.Var, wsort)
+		w := vc.fresh("ex:"+q.Var, q.varSort())
+		if q.isRef() {
+			vc.refTerms[w.S] = true
+		}
 		vc.assume(and(guard, h), subst(and(rng, body), v, w))
 		vc.witnesses = append(vc.witnesses, &Witness{lineIdx: len(vc.lines), t: w})
 		// a universally quantified conjunct under the existential becomes a
@@ -168,7 +168,8 @@ func (vc *VC) assumeClause(guard Term, env *Env, cl *Clause) {
 			if !ok || !iq.Forall {
 				continue
 			}
-			ienv := env.with(map[string]TV{q.Var: {w, tInt}})
+			wt, _ := env.quantVarType(q)
+			ienv := env.with(map[string]TV{q.Var: {w, wt}})
 			ih, err := ienv.evalHyps(ip.hyps)
 			if err != nil {
 				continue
@@ -177,9 +178,116 @@ func (vc *VC) assumeClause(guard Term, env *Env, cl *Clause) {
 			if err != nil {
 				continue
 			}
-			vc.qfacts = append(vc.qfacts, &QFact{lineIdx: len(vc.lines), guard: and(guard, h, ih), varSym: iv, body: implies(irng, ibody)})
+			vc.qfacts = append(vc.qfacts, &QFact{lineIdx: len(vc.lines), guard: and(guard, h, ih), varSym: iv, varSort: iq.varSort(), ref: iq.isRef(), body: implies(irng, ibody)})
 		}
 	}
+}
+
+// skolemiseInner: for an assumed "forall v :: rng ==> (... H ==> exists i :: B ...)"
+// whose existential is reached from the body through && and the right-hand
+// sides of ==> only (a positive position), assume also
+// "forall v :: rng && H ==> B[i := f(v)]" for a new function f, and remember f.
+func (vc *VC) skolemiseInner(guard, h Term, env *Env, q *EQuant, v string, rng Term) {
+	qs := q.varSort()
+	qt, err := env.quantVarType(q)
+	if err != nil {
+		return
+	}
+	benv := env.with(map[string]TV{q.Var: {Term{v, qs}, qt}})
+	benv.bound = true
+	for _, ip := range clauseParts(q.Body) {
+		iq, ok := ip.concl.(*EQuant)
+		if !ok || iq.Forall || (iq.VarTyp != "" && iq.VarTyp != "int") {
+			continue
+		}
+		ih, err := benv.evalHyps(ip.hyps)
+		if err != nil {
+			continue
+		}
+		iv, irng, ibody, err := benv.quantParts(iq)
+		if err != nil {
+			continue
+		}
+		vc.nfresh++
+		fname := quote(fmt.Sprintf("skf:%s!%d", iq.Var, vc.nfresh))
+		vc.declare("skf:"+fname, fmt.Sprintf("(declare-fun %s (%s) Int)", fname, qs))
+		app := Term{"(" + fname + " " + v + ")", SInt}
+		fact := implies(and(rng, ih), subst(and(irng, ibody), iv, app))
+		vc.assume(and(guard, h), T(SBool, "(forall ((%s %s)) (! %s :pattern (%s)))", v, qs, fact.S, app.S))
+		vc.qfacts = append(vc.qfacts, &QFact{lineIdx: len(vc.lines), guard: and(guard, h), varSym: v, varSort: qs, ref: q.isRef(), body: fact})
+		vc.skolemFns = append(vc.skolemFns, &SkolemFn{lineIdx: len(vc.lines), name: fname, dom: qs, ref: q.isRef()})
+	}
+}
+
+// existentialGoal rebuilds the body of a universally quantified goal that has
+// been skolemised at sk, offering candidate witnesses to every existential
+// that is reached through && and the right-hand sides of ==>: the values at sk
+// of the skolem functions of the assumptions, and the ends of the
+// existential's own range. Each added disjunct implies the existential, so
+// the strengthened goal implies the original one.
+func (vc *VC) existentialGoal(env *Env, q *EQuant, sk Term) (Term, bool) {
+	parts := clauseParts(q.Body)
+	eligible := false
+	for _, ip := range parts {
+		if iq, ok := ip.concl.(*EQuant); ok && !iq.Forall && (iq.VarTyp == "" || iq.VarTyp == "int") && iq.Lo != nil {
+			eligible = true
+		}
+	}
+	if !eligible {
+		return Term{}, false
+	}
+	qt, err := env.quantVarType(q)
+	if err != nil {
+		return Term{}, false
+	}
+	// sk is declared with the obligation only: evaluate as under a binder, so
+	// that nothing about it is added to the shared prefix
+	senv := env.with(map[string]TV{q.Var: {sk, qt}})
+	senv.bound = true
+	any := false
+	goal := tTrue
+	for _, ip := range parts {
+		ih, err := senv.evalHyps(ip.hyps)
+		if err != nil {
+			return Term{}, false
+		}
+		iq, ok := ip.concl.(*EQuant)
+		if !ok || iq.Forall || (iq.VarTyp != "" && iq.VarTyp != "int") || iq.Lo == nil {
+			c, err := senv.evalBool(ip.concl)
+			if err != nil {
+				return Term{}, false
+			}
+			goal = and(goal, implies(ih, c))
+			continue
+		}
+		orig, err := senv.evalBool(ip.concl)
+		if err != nil {
+			return Term{}, false
+		}
+		iv, irng, ibody, err := senv.quantParts(iq)
+		if err != nil {
+			return Term{}, false
+		}
+		var cands []Term
+		for _, f := range vc.skolemFns {
+			if f.lineIdx <= len(vc.lines) && f.dom == sk.Sort && f.ref == q.isRef() {
+				cands = append(cands, Term{"(" + f.name + " " + sk.S + ")", SInt})
+			}
+		}
+		if lo, err := senv.eval(iq.Lo); err == nil {
+			cands = append(cands, lo.T)
+		}
+		if hi, err := senv.eval(iq.Hi); err == nil {
+			cands = append(cands, sub(hi.T, intLit(1)))
+		}
+		disj := []Term{orig}
+		for _, c := range cands {
+			disj = append(disj, subst(and(irng, ibody), iv, c))
+		}
+		goal = and(goal, implies(ih, or(disj...)))
+		any = true
+	}
+	return goal, any
 }
 
 // obligeClause emits one obligation per conjunct of a clause. Universally
@@ -210,16 +318,49 @@ func (vc *VC) obligeClause(kind, label, site string, guard Term, env *Env, cl *C
 				return
 			}
 			vc.nfresh++
-			_, sksort, _ := env.quantVarType(q)
-			sk := Term{quote(fmt.Sprintf("sk:%s!%d", q.Var, vc.nfresh)), sksort}
+			sk := Term{quote(fmt.Sprintf("sk:%s!%d", q.Var, vc.nfresh)), q.varSort()}
 			goal := subst(implies(rng, body), v, sk)
+			if eg, ok := vc.existentialGoal(env, q, sk); ok {
+				goal = implies(subst(rng, v, sk), eg)
+			}
 			o := vc.oblige(kind, label, psite, and(guard, h), goal, src)
 			if o == nil {
 				continue
 			}
-			o.Extra = append(o.Extra, fmt.Sprintf("(declare-const %s %s)", sk.S, sksort))
+			o.Extra = append(o.Extra, fmt.Sprintf("(declare-const %s %s)", sk.S, sk.Sort))
 			for _, u := range unf {
 				o.Extra = append(o.Extra, "(assert "+subst(eq(u.app, u.body), v, sk).S+")")
+			}
+			if strings.HasPrefix(q.VarTyp, "*") {
+				vc.addInstancesPtr(o, nil, []Term{sk})
+				continue
+			}
+			if sk.Sort == SStr {
+				// string-keyed quantifier (map keys): instances at the skolem,
+				// at the string witnesses of assumed existentials and at the
+				// string locals (e.g. the key of a range loop)
+				cands := []Term{sk}
+				for _, w := range vc.witnesses {
+					if w.lineIdx <= len(vc.lines) && w.t.Sort == SStr {
+						cands = append(cands, w.t)
+					}
+				}
+				vc.addInstances(o, append(cands, vc.strCellTerms(env)...))
+				continue
+			}
+			if q.isRef() {
+				// a goal about all references of a type: the quantified
+				// assumptions over references at the skolem constant and at
+				// the reference witnesses (no index arithmetic)
+				vc.refTerms[sk.S] = true
+				cands := []Term{sk}
+				for _, w := range vc.witnesses {
+					if w.lineIdx <= len(vc.lines) && vc.refTerms[w.t.S] {
+						cands = append(cands, w.t)
+					}
+				}
+				vc.addInstances(o, cands)
+				continue
 			}
 			vc.addInstances(o, vc.instCandidates([]Term{sk}, env))
 			continue
@@ -237,11 +378,20 @@ func (vc *VC) obligeClause(kind, label, site string, guard Term, env *Env, cl *C
 			}
 			var seeds []Term
 			for _, w := range vc.witnesses {
-				if w.lineIdx <= len(vc.lines) {
+				if w.lineIdx <= len(vc.lines) && w.t.Sort == q.varSort() {
 					seeds = append(seeds, w.t)
 				}
 			}
 			cands := vc.witnessCandidates(seeds, env)
+			if q.varSort() == SStr {
+				cands = nil
+				for _, sd := range seeds {
+					if sd.Sort == SStr {
+						cands = append(cands, sd)
+					}
+				}
+				cands = append(cands, vc.strCellTerms(env)...)
+			}
 			disj := []Term{orig}
 			for _, c := range cands {
 				disj = append(disj, subst(and(rng, body), v, c))
@@ -259,20 +409,75 @@ func (vc *VC) obligeClause(kind, label, site string, guard Term, env *Env, cl *C
 		}
 		if o := vc.oblige(kind, label, psite, and(guard, h), g, src); o != nil && len(vc.qfacts) > 0 {
 			// ground goal: offer the quantified assumptions at the integer locals
-			vc.addInstances(o, vc.witnessCandidates(nil, env))
+			vc.addInstances(o, append(vc.witnessCandidates(nil, env), vc.strCellTerms(env)...))
 		}
 	}
 }
 
+// strCellTerms lists the current values of the string-typed local variables
+// and of string-sorted names bound in the environment: the candidates at
+// which string-keyed quantified assumptions are instantiated.
+func (vc *VC) strCellTerms(env *Env) []Term {
+	var out []Term
+	seen := map[string]bool{}
+	st := env.cellState()
+	if st != nil {
+		var keys []ssa.Value
+		for k := range st.cells {
+			if _, ok := k.(*ssa.Alloc); ok {
+				keys = append(keys, k)
+			}
+		}
+		sortValues(keys)
+		for _, k := range keys {
+			t := st.cells[k]
+			if t.Sort == SStr && !seen[t.S] && len(out) < 8 {
+				seen[t.S] = true
+				out = append(out, t)
+			}
+		}
+	}
+	var names []string
+	for n := range env.vars {
+		names = append(names, n)
+	}
+	sort.Strings(names)
+	for _, n := range names {
+		tv := env.vars[n]
+		if tv.T.Sort == SStr && !seen[tv.T.S] && len(out) < 12 {
+			seen[tv.T.S] = true
+			out = append(out, tv.T)
+		}
+	}
+	return out
+}
+
 func (vc *VC) addInstances(o *Obligation, cands []Term) {
+	vc.addInstancesPtr(o, cands, nil)
+}
+
+// addInstancesPtr: ptrCands are reference-valued terms (the skolem of a
+// "forall x *T" goal) at which reference-typed quantified facts are
+// instantiated; all other facts are instantiated at cands.
+func (vc *VC) addInstancesPtr(o *Obligation, cands []Term, ptrCands []Term) {
 	for _, qf := range vc.qfacts {
 		if qf.lineIdx > o.PrefixLen {
 			continue
 		}
+		if qf.ref {
+			// (the general loop below additionally instantiates reference
+			// facts at the known reference terms)
+			for _, c := range ptrCands {
+				o.Extra = append(o.Extra, "(assert "+implies(qf.guard, subst(qf.body, qf.varSym, c)).S+")")
+			}
+		}
 		for _, c := range cands {
-			o.Extra = append(o.Extra, "(assert "+implies(qf.guard, subst(qf.body, qf.varSym, c)).S+")")
+			if (qf.varSort == SStr) != (c.Sort == SStr) || qf.ref != vc.refTerms[c.S] {
+				continue
+			}
+			o.Inst = append(o.Inst, "(assert "+implies(qf.guard, subst(qf.body, qf.varSym, c)).S+")")
 			for _, u := range qf.unfolds {
-				o.Extra = append(o.Extra, "(assert "+subst(eq(u.app, u.body), qf.varSym, c).S+")")
+				o.Inst = append(o.Inst, "(assert "+subst(eq(u.app, u.body), qf.varSym, c).S+")")
 			}
 		}
 	}
@@ -382,6 +587,31 @@ func (vc *VC) witnessCandidates(seeds []Term, env *Env) []Term {
 		push(c)
 		push(add(c, intLit(1)))
 		push(sub(c, intLit(1)))
+	}
+	// the hidden indices of "for range" loops are always offered, also when a
+	// function has more integer locals than the cap admits: a quantified
+	// invariant over the ranged slice is needed at the element in hand
+	st := env.cellState()
+	if st != nil {
+		var keys []ssa.Value
+		for k := range st.cells {
+			if a, ok := k.(*ssa.Alloc); ok && a.Comment == "rangeindex" {
+				keys = append(keys, k)
+			}
+		}
+		sortValues(keys)
+		for _, k := range keys {
+			c := st.cells[k]
+			if c.Sort != SInt {
+				continue
+			}
+			for _, t := range []Term{c, add(c, intLit(1)), sub(c, intLit(1))} {
+				if !seen[t.S] {
+					seen[t.S] = true
+					out = append(out, t)
+				}
+			}
+		}
 	}
 	return out
 }
